@@ -99,10 +99,17 @@ def run(tier, seed):
         if len(ck.samples) < 4:
             ck.sample({'s': [hex(ord(ch)) for ch in s], 'escaped': e})
     # selection on a document
-    for s in rnd.sample([x for x in strs if x in esc], 200 if tier == 'quick' else 3000):
+    nul_strs = [x for x in ('\x00', 'a\x00', '\x00b', '-\x00', 'a\x00b\x00c', '\x00\x00', '1\x00') if x in esc or not esc.update({x: sv.escape(x)})]
+    for s in rnd.sample([x for x in strs if x in esc], 200 if tier == 'quick' else 3000) + nul_strs:
         exp = s.replace('\x00', '�')
         soup.body.clear()
-        for v in (exp, exp + 'x', 'x' + exp, exp[:-1] if len(exp) > 1 else 'q', exp.swapcase() if exp.swapcase() != exp else 'zz'):
+        near = [exp, exp + 'x', 'x' + exp, exp[:-1] if len(exp) > 1 else 'q', exp.swapcase() if exp.swapcase() != exp else 'zz']
+        if '\x00' in s:
+            near += [s, s.replace('\x00', '', 1) or 'q2']           # the raw NUL is another character than U+FFFD in a document value
+        if '�' in exp:
+            near.append(exp.replace('�', '\x00', 1))
+        near = list(dict.fromkeys(near))
+        for v in near:
             t = soup.new_tag('p')
             t.attrs['id'] = v
             # a plain-string class attribute (XML parsers, API) is split at CSS white space only
